@@ -553,6 +553,10 @@ class ServiceModel:
     st, err = self._guard(c['study'])
     if err:
       return err, None, None
+    # a trial id that is not a positive integer is an invalid argument (nothing is changed)
+    if any(tid is not None and not (str(tid).isascii() and str(tid).isdigit() and int(tid) > 0)
+           for tid, _, _, _ in c['delta']):
+      return {INVALID}, None, None
     missing = [tid for tid, _, _, _ in c['delta'] if tid is not None and int(tid) not in st['trials']]
     if missing:
       return {OK}, {'error_details': True}, None
